@@ -8,7 +8,7 @@ generated code (-O0..-O3); each argument's sentinel must sit where `mirdrv_c05` 
 puts it (tie) and where the psABI specification puts it (property).  Second oracle: gcc-compiled C
 callees generated from the same prototypes.
 """
-import json, os, subprocess, sys, time, hashlib, tempfile, shutil
+import json, os, subprocess, sys, time, hashlib, tempfile, shutil, resource, itertools
 from concurrent.futures import ThreadPoolExecutor
 from vf import Check, VERIF, REPO, SplitMix
 
@@ -260,25 +260,47 @@ def parse_model(o):
 # ----------------------------------------------------------------------------- running the harness
 
 
+def child_limits(cpu_s=600, fsize=512 << 20):
+    """resource caps for every child process: no core files, bounded output files, bounded CPU"""
+    def f():
+        resource.setrlimit(resource.RLIMIT_CORE, (0, 0))
+        resource.setrlimit(resource.RLIMIT_FSIZE, (fsize, fsize))
+        resource.setrlimit(resource.RLIMIT_CPU, (cpu_s, cpu_s))
+    return f
+
+
+_OUT_SEQ = itertools.count()
+
+
 def run_harness(exe, reqs, so=None, timeout=None):
     """reqs: list of (cid, engines, text).  Returns {(cid,eng): {"S":[...], "O":hex, "E":msg, "G":(...)}}, base, crashes"""
     res, crashes, base = {}, [], None
     pending = list(reqs)
     skip = {}  # cid -> engines already done or crashed
     guard = 0
+    fixed_timeout = timeout
     while pending and guard < 5:
         guard += 1
-        timeout = 8 + 0.02 * sum(len(e) for _, e, _ in pending)
+        timeout = fixed_timeout or 8 + 0.02 * sum(len(e) for _, e, _ in pending)
         inp = ("SO " + so + "\n" if so else "") + "".join(
             t if cid not in skip else retarget(t, [e for e in engs if e not in skip[cid]])
             for cid, engs, t in pending)
+        # stdout goes to a size-capped scratch file (RLIMIT_FSIZE), never to an unbounded pipe
+        opath = os.path.join(so_dir(), f"out-{next(_OUT_SEQ)}.txt")
         try:
-            p = subprocess.run([exe], input=inp, stdout=subprocess.PIPE, stderr=subprocess.PIPE, text=True,
-                               timeout=timeout)
-            out, rc, err = p.stdout, p.returncode, p.stderr
+            with open(opath, "w") as of:
+                p = subprocess.run([exe], input=inp, stdout=of, stderr=subprocess.PIPE, text=True,
+                                   timeout=timeout, preexec_fn=child_limits(cpu_s=int(timeout) + 60),
+                                   cwd=so_dir())
+            rc, err = p.returncode, (p.stderr or "")[-2000:]
         except subprocess.TimeoutExpired as ex:
-            out = ex.stdout.decode() if isinstance(ex.stdout, bytes) else (ex.stdout or "")
             rc, err = -99, "timeout"
+        try:
+            with open(opath, errors="replace") as of:
+                out = of.read()
+            os.remove(opath)
+        except OSError:
+            out = ""
         for line in out.split("\n"):
             toks = line.split(" ", 3)
             if toks[0] == "B":
@@ -674,8 +696,13 @@ def build_so(ck, srcs, tag):
     if not os.path.exists(so):
         with open(cpath, "w") as f:
             f.write(src)
-        p = subprocess.run(["gcc", "-O1", "-fno-omit-frame-pointer", "-fPIC", "-shared", "-w", cpath, "-o", so + ".tmp"],
-                           stdout=subprocess.PIPE, stderr=subprocess.STDOUT, text=True)
+        try:
+            p = subprocess.run(["gcc", "-O1", "-fno-omit-frame-pointer", "-fPIC", "-shared", "-w", cpath, "-o", so + ".tmp"],
+                               stdout=subprocess.PIPE, stderr=subprocess.STDOUT, text=True, timeout=600,
+                               preexec_fn=child_limits(cpu_s=600, fsize=256 << 20))
+        except subprocess.TimeoutExpired:
+            ck.log("gcc oracle compile timed out")
+            return None
         if p.returncode != 0:
             ck.log("gcc oracle compile failed:\n" + p.stdout[-2000:])
             return None
@@ -870,6 +897,15 @@ class Runner:
         for i, (c, b) in enumerate(zip(cases, builds)):
             reqs.append((f"c{i}", engines, request(f"c{i}", c, b, engines, callee=(f"cal{i}" if gcc else None))))
         res, crashes = run_parallel(self.exe, reqs, so)
+        # a timeout may be machine load, not a hang: re-run such an evaluation alone with a generous limit
+        slow = [(cid, e) for (cid, e), r in res.items() if "timeout" in r.get("X", "")][:6]
+        for cid, e in slow:
+            rq = next(t for (c_, _, t) in reqs if c_ == cid)
+            r2, _ = run_harness(self.exe, [(cid, [e], retarget(rq, [e]))], so, timeout=120)
+            if (cid, e) in r2 and "X" not in r2[(cid, e)]:
+                res[(cid, e)] = r2[(cid, e)]
+            elif (cid, e) in r2:
+                res[(cid, e)]["X"] = "hang (no answer within 120 s when run alone)"
         out = []
         for i, (c, b, m) in enumerate(zip(cases, builds, ms)):
             for e in engines:
